@@ -189,15 +189,14 @@ class CellParser:
                     "Error while converting nested list into string: "
                     "Input list is nested too deeply."
                 )
-            if len(value) == 1:
-                # Trailing separator to distinguish 1-element lists from basic types
-                return (
-                    self.join_from_lists(value[0], depth=depth + 1)
-                    + CellParser.SEPARATORS[depth]
-                )
-            return CellParser.SEPARATORS[depth].join(
-                [self.join_from_lists(e, depth=depth + 1) for e in value]
-            )
+            parts = [self.join_from_lists(e, depth=depth + 1) for e in value]
+            joined = CellParser.SEPARATORS[depth].join(parts)
+            if len(parts) == 1 or (parts and parts[-1] == ""):
+                # Trailing separator to distinguish 1-element lists from basic types,
+                # and to keep an empty last element: the reader does not put '' at the
+                # end of a list when the last character is a separator.
+                joined += CellParser.SEPARATORS[depth]
+            return joined
         else:
             raise CellParserError(
                 "Error while converting nested list into string: "
